@@ -1,45 +1,50 @@
 (* AppSlots -- the `while True` loop of find_slots ends: every slot found on a
-   node uses up at least one unit (1/64) of a core, so the rounds the model
-   grants a node (64 per core, plus one) are never used up. *)
+   node uses up at least one unit (1/64) of a core that had room for it, so the
+   rounds the model grants a node (the free units of its cores, plus n_slots, plus one) are
+   never used up -- in ANY state of the node list, also with occupations
+   outside FREE .. BUSY (negative after a release of something not held). *)
 From Coq Require Import ZArith List Bool String Lia.
 From RP Require Import AppSlots.Model AppSlots.Oracle AppSlots.Lists AppSlots.NodeProofs.
 Import ListNotations.
 Open Scope Z_scope.
 
-(* free units of a resource list *)
-Fixpoint free_units (cs : list (option Z)) : Z :=
-  match cs with
-  | [] => 0
-  | None :: t => free_units t
-  | Some o :: t => (BUSY - o) + free_units t
-  end.
-
 Fixpoint sum_snd (l : list (Z * Z)) : Z :=
   match l with [] => 0 | (_, d) :: l' => d + sum_snd l' end.
 
-Lemma free_units_upd cs : forall k o d, nth_error cs k = Some (Some o) ->
-  free_units (upd cs k (Some (o + d))) = free_units cs - d.
+Lemma free_pos_nonneg cs : 0 <= free_pos cs.
+Proof. induction cs as [|[o|] cs IH]; cbn [free_pos]; lia. Qed.
+
+Lemma free_pos_upd cs : forall k o d, nth_error cs k = Some (Some o) -> 0 <= d <= BUSY - o ->
+  free_pos (upd cs k (Some (o + d))) = free_pos cs - d.
 Proof.
-  induction cs as [|c cs IH]; intros [|k] o d H; cbn in H; try discriminate.
-  - injection H as ->. cbn [upd free_units]. lia.
-  - cbn [upd free_units]. destruct c; rewrite (IH _ _ _ H); lia.
+  induction cs as [|c cs IH]; intros [|k] o d H Hd; cbn in H; try discriminate.
+  - injection H as ->. cbn [upd free_pos]. lia.
+  - cbn [upd free_pos]. destruct c; rewrite (IH _ _ _ H Hd); lia.
 Qed.
 
-Lemma alloc_list_units l : forall cs cs', alloc_list cs l = (cs', None) -> free_units cs' = free_units cs - sum_snd l.
+Lemma Incr_lower lo hi l : Incr lo hi l -> Forall (fun p => lo <= fst p) l.
 Proof.
-  induction l as [|[i d] l IH]; intros cs cs' H; cbn [alloc_list sum_snd] in *.
-  - injection H as <-. lia.
-  - destruct (get_pos cs i) as [k|]; [|discriminate]. unfold add_at in H.
-    destruct (nth_error cs k) as [[o|]|] eqn:E; try discriminate.
-    rewrite (IH _ _ H), (free_units_upd _ _ _ _ E). lia.
+  revert lo. induction l as [|[i d] l IH]; intros lo H; constructor; cbn in *.
+  - lia.
+  - destruct H as [Hi H]. eapply Forall_impl; [|exact (IH _ H)]. cbn. intros a Ha. lia.
 Qed.
 
-Lemma free_units_bounds cs : bounded cs -> 0 <= free_units cs <= BUSY * zlen cs.
+(* taking a list the search found lowers the free units by exactly what the list says *)
+Lemma taken_units occ l : 0 <= occ -> forall cs cs' lo hi,
+  Forall (takes occ cs) l -> Incr lo hi l -> alloc_list cs l = (cs', None) ->
+  free_pos cs' = free_pos cs - sum_snd l.
 Proof.
-  induction cs as [|c cs IH]; intro Hb; [unfold zlen, BUSY; cbn; lia|].
-  assert (Hb' : bounded cs) by (intros p o Hp; exact (Hb (S p) o Hp)).
-  specialize (IH Hb'). rewrite zlen_cons. cbn [free_units]. destruct c as [o|]; [|unfold BUSY in *; lia].
-  pose proof (Hb O o eq_refl). unfold BUSY in *. lia.
+  intro Ho. induction l as [|[i d] l IH]; intros cs cs' lo hi HF HI Ha; cbn [alloc_list sum_snd] in *.
+  - injection Ha as <-. lia.
+  - pose proof (Forall_inv HF) as [Hd [Hi [o [Hn Hle]]]]. cbn [fst snd] in *. subst d.
+    destruct HI as [Hlo HI].
+    destruct (get_pos_in cs i _ Hi Hn) as [Hg _]. rewrite Hg, (add_at_spec cs _ occ o Hn) in Ha.
+    assert (HF1 : Forall (takes occ (upd cs (Z.to_nat i) (Some (o + occ)))) l).
+    { pose proof (Incr_lower _ _ _ HI) as Hlow. rewrite Forall_forall in *. intros p Hp.
+      destruct (HF p (or_intror Hp)) as [A [B [o2 [C D]]]]. pose proof (Hlow p Hp) as Hge. cbn in Hge.
+      split; [exact A|]. split; [exact B|]. exists o2. split; [|exact D].
+      rewrite nth_error_upd_other; [exact C|]. intro E. apply Z2Nat.inj in E; lia. }
+    rewrite (IH _ _ _ _ HF1 HI Ha), (free_pos_upd _ _ _ _ Hn); lia.
 Qed.
 
 Lemma sum_snd_taken occ n cs l : ro_taken occ n cs l -> sum_snd l = n * occ.
@@ -48,44 +53,91 @@ Proof.
   rewrite zlen_cons. cbn [sum_snd]. destruct Hd as [Hd _]. cbn in Hd. subst d. rewrite IH. lia.
 Qed.
 
-Lemma find_slot_cores nd r nd' s : find_slot nd r = (nd', FSlot s) ->
-  alloc_list (nd_cores nd) (s_cores s) = (nd_cores nd', None).
+(* Node.find_slot in any state: no exception, and what a found slot takes from the cores *)
+Lemma find_slot_any nd r nd' fr : 0 <= r_nc r -> 0 <= r_ng r -> find_slot nd r = (nd', fr) ->
+  match fr with
+  | FErr _ => False
+  | FNone => True
+  | FSlot s => ro_taken (r_co r) (r_nc r) (nd_cores nd) (s_cores s) /\
+               alloc_list (nd_cores nd) (s_cores s) = (nd_cores nd', None)
+  end.
 Proof.
-  unfold find_slot. intro H.
-  destruct (negb (r_nc r =? 0) && _) ; [discriminate|].
-  destruct (negb (r_ng r =? 0) && _) ; [discriminate|].
-  destruct (match nd_lfs nd with Some l => _ | None => false end); [discriminate|].
-  destruct (match nd_mem nd with Some m => _ | None => false end); [discriminate|].
-  unfold alloc_apply in H. cbn [s_cores s_gpus s_lfs s_mem] in H.
-  destruct (alloc_list (nd_cores nd) _) as [cs e1] eqn:E1. destruct e1; [discriminate|].
-  destruct (alloc_list (nd_gpus nd) _) as [gs e2] eqn:E2. destruct e2; [discriminate|].
-  injection H as <- <-. cbn [nd_cores s_cores]. exact E1.
+  intros Hnc Hng Hf. unfold find_slot in Hf.
+  set (cores := if r_nc r =? 0 then [] else pick (r_co r) (r_nc r) (nd_cores nd) 0 []) in *.
+  set (gpus := if r_ng r =? 0 then [] else pick (r_go r) (r_ng r) (nd_gpus nd) 0 []) in *.
+  destruct (negb (r_nc r =? 0) && (zlen cores <? r_nc r)) eqn:Ec; [injection Hf as <- <-; exact I|].
+  destruct (negb (r_ng r =? 0) && (zlen gpus <? r_ng r)) eqn:Eg; [injection Hf as <- <-; exact I|].
+  destruct (match nd_lfs nd with Some l => _ | None => false end); [injection Hf as <- <-; exact I|].
+  destruct (match nd_mem nd with Some m => _ | None => false end); [injection Hf as <- <-; exact I|].
+  pose proof (pick_part (r_co r) (r_nc r) (nd_cores nd) Hnc Ec) as Htc. fold cores in Htc.
+  pose proof (pick_part (r_go r) (r_ng r) (nd_gpus nd) Hng Eg) as Htg. fold gpus in Htg.
+  destruct (alloc_list_ok cores (nd_cores nd) (takes_fit _ _ _ (proj1 Htc))) as [cs' [Hac _]].
+  destruct (alloc_list_ok gpus (nd_gpus nd) (takes_fit _ _ _ (proj1 Htg))) as [gs' [Hag _]].
+  unfold alloc_apply in Hf. cbn [s_cores s_gpus s_lfs s_mem] in Hf. rewrite Hac, Hag in Hf.
+  injection Hf as <- <-. cbn [s_cores nd_cores]. split; [exact Htc | exact Hac].
 Qed.
 
-Theorem node_loop_no_hang n0 r n : rr_ok r -> 0 < r_nc r -> 0 < r_co r ->
-  forall fuel fc fg fl fm nd slots nd' slots' hit e,
-  NodeRel fc fg fl fm n0 nd -> (Z.to_nat (free_units (nd_cores nd)) < fuel)%nat ->
+Theorem node_loop_never_hangs r n : 0 < r_nc r -> 0 < r_co r -> 0 <= r_ng r ->
+  forall fuel nd slots nd' slots' hit e,
+  (Z.to_nat (free_pos (nd_cores nd)) < fuel)%nat ->
   node_loop fuel nd r n slots = (nd', slots', hit, e) -> e <> Some EHang.
 Proof.
-  intros Hr Hnc Hco. induction fuel as [|fuel IH]; intros fc fg fl fm nd slots nd' slots' hit e HN Hlt Hl; [lia|].
+  intros Hnc Hco Hng. induction fuel as [|fuel IH]; intros nd slots nd' slots' hit e Hlt Hl; [lia|].
   cbn [node_loop] in Hl. destruct (find_slot nd r) as [nd1 fr] eqn:Ef.
-  pose proof (find_slot_spec _ _ _ _ _ _ _ _ _ HN Hr Ef) as Hs.
+  pose proof (find_slot_any nd r nd1 fr (Z.lt_le_incl _ _ Hnc) Hng Ef) as Hs.
   destruct fr as [s| |x].
-  - destruct Hs as [HS HN1].
+  - destruct Hs as [HT Ha].
     destruct (zlen (slots ++ [s]) =? n); [injection Hl as <- <- <- <-; discriminate|].
-    eapply IH; [exact HN1 | | exact Hl].
-    pose proof (alloc_list_units _ _ _ (find_slot_cores _ _ _ _ Ef)) as Hu.
-    rewrite (sum_snd_taken _ _ _ _ (sf_c _ _ _ HS)) in Hu.
-    pose proof (free_units_bounds _ (nr_bc _ _ _ _ _ _ HN1)). pose proof (free_units_bounds _ (nr_bc _ _ _ _ _ _ HN)).
-    unfold BUSY in *. nia.
+    eapply IH; [| exact Hl].
+    pose proof (taken_units _ _ (Z.lt_le_incl _ _ Hco) _ _ _ _ (proj1 HT) (proj1 (proj2 HT)) Ha) as Hu.
+    rewrite (sum_snd_taken _ _ _ _ HT) in Hu.
+    pose proof (free_pos_nonneg (nd_cores nd1)). pose proof (free_pos_nonneg (nd_cores nd)). nia.
   - injection Hl as <- <- <- <-. discriminate.
   - contradiction.
 Qed.
 
-Lemma node_fuel_enough fc fg fl fm n0 nd : NodeRel fc fg fl fm n0 nd ->
-  (Z.to_nat (free_units (nd_cores nd)) < node_fuel nd)%nat.
+Lemma node_fuel_enough nd n : (Z.to_nat (free_pos (nd_cores nd)) < node_fuel nd n)%nat.
+Proof. unfold node_fuel. lia. Qed.
+
+Lemma nodes_loop_never_hangs r n start : 0 < r_nc r -> 0 < r_co r -> 0 <= r_ng r ->
+  forall cnt i ns slots stop ns' slots' stop' e,
+  nodes_loop cnt i start ns r n slots stop = (ns', slots', stop', e) -> e <> Some EHang.
 Proof.
-  intro HN. pose proof (free_units_bounds _ (nr_bc _ _ _ _ _ _ HN)). unfold node_fuel, BUSY in *. lia.
+  intros Hnc Hco Hng. induction cnt as [|cnt IH]; intros i ns slots stop ns' slots' stop' e Hl; cbn [nodes_loop] in Hl.
+  - injection Hl as <- <- <- <-. discriminate.
+  - destruct (nth_error ns (Z.to_nat ((start + i) mod zlen ns))) as [nd|]; [|injection Hl as <- <- <- <-; discriminate].
+    destruct (node_loop (node_fuel nd n) nd r n slots) as [[[nd1 slots1] hit] e1] eqn:El.
+    pose proof (node_loop_never_hangs r n Hnc Hco Hng _ _ _ _ _ _ _ (node_fuel_enough nd n) El) as Hne.
+    destruct e1 as [x|]; [injection Hl as <- <- <- <-; exact Hne|].
+    destruct (zlen slots1 =? n); [injection Hl as <- <- <- <-; discriminate|].
+    eapply IH. exact Hl.
+Qed.
+
+Lemma dealloc_list_not_hang l : forall cs cs' e, dealloc_list cs l = (cs', Some e) -> e <> EHang.
+Proof.
+  induction l as [|[i d] l IH]; intros cs cs' e H; cbn [dealloc_list] in H; [discriminate|].
+  destruct (py_pos cs i) as [k|]; [|injection H as <- <-; discriminate].
+  destruct (add_at cs k (- d)) as [cs1|]; [|injection H as <- <-; discriminate].
+  eapply IH. exact H.
+Qed.
+
+Lemma deallocate_not_hang nd s nd' e : deallocate_slot nd s = (nd', Some e) -> e <> EHang.
+Proof.
+  unfold deallocate_slot. destruct (dealloc_list (nd_cores nd) (s_cores s)) as [cs e1] eqn:E1.
+  destruct e1 as [x|]; [intro H; injection H as <- <-; exact (dealloc_list_not_hang _ _ _ _ E1)|].
+  destruct (dealloc_list (nd_gpus nd) (s_gpus s)) as [gs e2] eqn:E2.
+  destruct e2 as [x|]; [intro H; injection H as <- <-; exact (dealloc_list_not_hang _ _ _ _ E2)|].
+  discriminate.
+Qed.
+
+Lemma dealloc_all_not_hang sl : forall ns ns' e, dealloc_all ns sl = (ns', Some e) -> e <> EHang.
+Proof.
+  induction sl as [|s sl IH]; intros ns ns' e H; cbn [dealloc_all] in H; [discriminate|].
+  destruct (get_node ns (s_nidx s)) as [k|]; [|injection H as <- <-; discriminate].
+  destruct (nth_error ns k) as [nd|]; [|injection H as <- <-; discriminate].
+  destruct (deallocate_slot nd s) as [nd' [x|]] eqn:Ed.
+  - injection H as <- <-. exact (deallocate_not_hang _ _ _ _ Ed).
+  - eapply IH. exact H.
 Qed.
 
 Lemma assert_rr_nc nl r n : assert_rr nl r n = None -> r_nc r <> 0.
@@ -94,4 +146,35 @@ Proof.
   - destruct (negb (v_uniform v)); [discriminate|]. destruct (r_nc r =? 0) eqn:E; [discriminate|].
     intros _. apply Z.eqb_neq. exact E.
   - destruct (r_nc r =? 0); discriminate.
+Qed.
+
+Lemma assert_rr_not_hang nl r n : assert_rr nl r n <> Some EHang.
+Proof.
+  unfold assert_rr. destruct (nl_ver nl) as [v|]; [|destruct (r_nc r =? 0); discriminate].
+  destruct (negb (v_uniform v)); [discriminate|]. destruct (r_nc r =? 0); [discriminate|].
+  destruct (r_lfs r =? 0); [| destruct (v_lfs v); [|discriminate]];
+    (destruct (r_mem r =? 0); [| destruct (v_mem v); [|discriminate]]);
+    (destruct (qlt _ (1, 1)); [discriminate|]; destruct (qlt _ (n, 1)); discriminate).
+Qed.
+
+(* NodeList.find_slots in ANY state of the node list (whatever was released before, held or not):
+   the model's bound on the rounds of `while True` is never reached *)
+Theorem find_slots_never_hangs nl r n nl' res :
+  0 <= r_nc r -> 0 <= r_ng r -> 0 < r_co r -> find_slots nl r n = (nl', res) -> res <> RErr EHang.
+Proof.
+  intros Hnc0 Hng Hco Hf. unfold find_slots in Hf.
+  set (nl1 := match nl_ver nl with None => verify nl | Some _ => nl end) in *. clearbody nl1.
+  destruct (assert_rr nl1 r n) as [x|] eqn:Ea.
+  { injection Hf as <- <-. intro H. injection H as ->. exact (assert_rr_not_hang _ _ _ Ea). }
+  pose proof (assert_rr_nc _ _ _ Ea) as Hnc1. assert (Hnc : 0 < r_nc r) by lia.
+  destruct (match nl_failed nl1 with Some (fr, fn) => rr_ge fr r && (fn >=? n) | None => false end);
+    [injection Hf as <- <-; discriminate|].
+  destruct (nodes_loop (List.length (nl_nodes nl1)) 0 (nl_index nl1) (nl_nodes nl1) r n [] None)
+    as [[[ns slots] stop] e] eqn:El.
+  pose proof (nodes_loop_never_hangs r n _ Hnc Hco Hng _ _ _ _ _ _ _ _ _ El) as Hne.
+  destruct e as [x|]; [injection Hf as <- <-; intro H; injection H as ->; contradiction|].
+  destruct (negb (zlen slots =? n)).
+  - destruct (dealloc_all ns slots) as [ns' [x|]] eqn:Ed; injection Hf as <- <-; [|discriminate].
+    intro H. injection H as ->. exact (dealloc_all_not_hang _ _ _ _ Ed eq_refl).
+  - destruct stop; injection Hf as <- <-; discriminate.
 Qed.
